@@ -342,8 +342,9 @@ func (p *Parser) parseSpecs(specs []srcInput, listener *TreeShapeListener) (*sys
 			return nil, err
 		}
 
-		walker := antlr.NewParseTreeWalker()
-		walker.Walk(listener, tree)
+		if err := walkTree(listener, tree, src.filename); err != nil {
+			return nil, err
+		}
 		verifAfterWalk(listener, src.filename)
 	}
 
@@ -522,10 +523,25 @@ func parseImports(parent importDef, src sourceCtxHelper, input string) ([]import
 		return nil, err
 	}
 
-	walker := antlr.NewParseTreeWalker()
-	walker.Walk(listener, tree)
+	if err := walkTree(listener, tree, parent.filename); err != nil {
+		return nil, err
+	}
 
 	return listener.imports, nil
+}
+
+// walkTree walks a parse tree with the listener. The listener panics on constructs it
+// cannot represent (a size on a type that takes none, digits that overflow, a bad
+// %-escape ...): like a panic of the parser itself, that is reported as a parse error
+// naming the file instead of taking the process down.
+func walkTree(listener *TreeShapeListener, tree antlr.Tree, filename string) (err error) {
+	defer func() {
+		if r := recover(); r != nil {
+			err = syslutil.Exitf(ParseError, fmt.Sprintf("%s has errors: %v\n", filename, r))
+		}
+	}()
+	antlr.NewParseTreeWalker().Walk(listener, tree)
+	return nil
 }
 
 // apply attributes from src to dst statement and all of its
